@@ -1558,6 +1558,14 @@ class SymbolicDim(_protocols.SymbolicDimProtocol, _display.PrettyPrintable):
             return SymbolicDim(sympy.sympify(self._expr // other._expr))
         return NotImplemented
 
+    def __rfloordiv__(self, other: int) -> SymbolicDim:
+        """Support int // SymbolicDim."""
+        if self._expr is None:
+            return SymbolicDim(None)
+        if isinstance(other, int):
+            return SymbolicDim(sympy.sympify(other // self._expr))
+        return NotImplemented
+
     def __truediv__(self, other: int | SymbolicDim) -> SymbolicDim:
         """Divide this dimension by an integer or another SymbolicDim (rational)."""
         if self._expr is None:
@@ -1588,6 +1596,14 @@ class SymbolicDim(_protocols.SymbolicDimProtocol, _display.PrettyPrintable):
             if other._value is None:
                 return SymbolicDim(None)
             return SymbolicDim(sympy.sympify(self._expr % other._expr))
+        return NotImplemented
+
+    def __rmod__(self, other: int) -> SymbolicDim:
+        """Support int % SymbolicDim."""
+        if self._expr is None:
+            return SymbolicDim(None)
+        if isinstance(other, int):
+            return SymbolicDim(sympy.sympify(other % self._expr))
         return NotImplemented
 
     def __ceil__(self) -> SymbolicDim:
